@@ -677,3 +677,34 @@ def run_front(prog, rep):
     if nw < 2 or nr < 2:
         raise AnalysisBroken('R-DF-FRONT: %d writeColumn / %d readColumn instantiations' % (nw, nr))
     return rule
+
+
+def run_overload_defaults(prog, rep, floor=3):
+    """name-keyed and index-keyed overloads of one operation take the same trailing parameters with the same defaults:
+    otherwise a call that omits a trailing argument compiles for both spellings but, for one of them, binds to a
+    different overload through implicit conversions (size_t -> bool -> ndsize_t) and reads other rows"""
+    rule = rep.rule('R-DF-OVERLOAD', 'sibling overloads that differ only in how the column / entity is named (text or index) agree on their trailing parameters and on which of them have default values', floor=floor)
+    groups = {}
+    seen = set()
+    for f in sorted(prog.funcs.values(), key=lambda f: (f.file, f.line, f.q)):
+        if not (f.cls or '').startswith('nix::') or (f.cls or '').startswith('nix::hdf5') or not f.params or (f.file, f.line) in seen:
+            continue
+        seen.add((f.file, f.line))
+        tail = tuple(re.sub(r'<.*>', '<>', p['type']) for p in f.params[1:])
+        groups.setdefault((f.cls, f.name, tail), []).append(f)
+    n = 0
+    for (cls, name, tail), fs in sorted(groups.items()):
+        if len(fs) < 2 or not any(p.get('hasdefault') for f in fs for p in f.params):
+            continue
+        firsts = [f.params[0]['type'] for f in fs]
+        if not (any('string' in t for t in firsts) and any('string' not in t for t in firsts)):
+            continue
+        n += 1
+        pats = set(tuple(bool(p.get('hasdefault')) for p in f.params[1:]) for f in fs)
+        rule.check(len(pats) == 1, '%s::%s(%s)' % (cls, name, ', '.join(tail)), rep.where(fs[0]), cls,
+                   'text- and index-keyed overloads default the same trailing parameters',
+                   'the overloads %s default different trailing parameters (%s): a call without the trailing argument binds to another overload for one spelling' % (
+                       ', '.join('%s(%s, ...) line %s' % (name, f.params[0]['type'], f.line) for f in fs), sorted(pats)))
+    if n < floor:
+        raise AnalysisBroken('R-DF-OVERLOAD: only %d sibling overload groups found' % n)
+    return rule
